@@ -249,6 +249,29 @@ class Src:
 
     def _take(self, need):
         out = []
+        if type(need) is SymInt and _len(self.items) - self.i > 3:
+            # fast path: the requested count very often equals the length of a whole prefix of the
+            # remaining items (a length field read back); guess the boundary from a model and fork once
+            c = ctx()
+            try:
+                m = c.get_model()
+                nv = m.eval(need.e, model_completion=True).as_signed_long()
+                run, k = 0, self.i
+                total = 0
+                while k < _len(self.items) and run < nv:
+                    it = self.items[k]
+                    ln = it.length if type(it) is Blob else 1
+                    run += m.eval(ln.e, model_completion=True).as_signed_long() if type(ln) is SymInt else ln
+                    total = total + ln
+                    k += 1
+                if run == nv and k > self.i:
+                    eq = (need == total)
+                    if (eq if type(eq) is bool else c.branch(eq.e)):
+                        out = self.items[self.i:k]
+                        self.i = k
+                        return [it for it in out if not (type(it) is Blob and type(it.length) is int and it.length == 0)]
+            except PathAbort:
+                raise
         while True:
             self._skip_empty()
             if need is not None:
@@ -378,7 +401,7 @@ class BytesIOModel:
         self._chk()
         src = Src.__new__(Src)
         src.__dict__.update(items=self.items, i=self.idx, consumed=0, limit=None, monitor=ProtocolMonitor(),
-                            fail_at=None, on_read=None, bad_arg=None)
+                            fail_at=None, on_read=None, bad_arg=None, cut=False, cut_at=None, ended=False)
         r = src.read(n)
         self.idx = src.i
         return r
